@@ -10,7 +10,7 @@ git apply $D/patch.diff || { echo "$S: patch does not apply"; git -C /repo workt
 PYTHONPATH=$W /venv/bin/python $D/demo.py > /tmp/confirm-$S-changed.log 2>&1; c=$?
 suite="skipped"
 if [ "$2" != "nosuite" ]; then
-  suite=$(cd $W && PYTHONPATH=$W /venv/bin/python -m pytest -q -p no:cacheprovider --timeout=900 -n 10 2>&1 | tail -n 1)
+  suite=$(cd $W && PYTHONPATH=$W /venv/bin/python -m pytest -q -p no:cacheprovider --timeout=900 -n ${NPROC:-10} 2>&1 | tail -n 1)
 fi
 echo "$S: demo original=$o changed=$c suite: $suite"
 cd /; git -C /repo worktree remove --force $W
